@@ -36,17 +36,26 @@ CFG = {
                      "theories/March/Closed.v", "theories/March/ClosedProofs.v",
                      "theories/March/Blocks.v", "theories/March/BlocksProofs.v",
                      "theories/March/VertexProofs.v", "theories/March/Canvas.v", "theories/March/CanvasProofs.v",
-                     "theories/March/Weld.v", "theories/March/WeldProofs.v"],
+                     "theories/March/Weld.v", "theories/March/WeldProofs.v",
+                     "theories/March/VolumeProofs.v", "theories/March/IsoProofs.v",
+                     "theories/March/Store.v", "theories/March/StoreProofs.v"],
     "level_text": "Coq theorems about a sign-grid model of marchFloat1BlockPosition whose lookup tables are GENERATED from "
                   "table.go/canvas.go on every run: finite facts about all 256 cases (vm_compute) lifted by induction-free "
                   "counting to every sign grid of any extent (grid_closed: each directed edge at most once, reverse equally "
-                  "often), no degenerate faces, orientation of the table, vertices on edges with a sign change, block index "
-                  "arithmetic, blocks_cover / canvas_eq_grid / canvas_closed for a model of fieldBounds, chunkSectionsInRange and "
-                  "the block loop with its continues, weld_manifold for the repaired weld over Q; the model (incl. the final weld as a relabelling) is compared with the real canvas on every run "
-                  "and the property is evaluated by a verified closedness test on the implementation's own triangles",
-    "level_note": "Trusted: Coq kernel + vm_compute; tools/tab2coq (table translation); the hand-written cell loop of the model "
-                  "tied by differential correspondence only; all floating point (field evaluation, interpolation, weld "
-                  "rounding, enclosed volume) is Go-side",
+                  "often), no degenerate faces, orientation of the table, enclosed volume = sum of per-case below-cutoff cell "
+                  "volumes > 0 (surface_volume_decomposition / _positive / _bracket, midpoint vertices), vertices on edges with a "
+                  "sign change and within one cell of the true isosurface for Lipschitz fields (iso_value_within_cell over Q, "
+                  "iso_distance over R with C19's lipschitz1 and the intermediate value theorem), block index arithmetic, "
+                  "storage_layout for a model of AddField/addFloat1Range, blocks_cover / canvas_eq_grid / canvas_closed / "
+                  "canvas_closed_end_to_end for a model of fieldBounds, chunkSectionsInRange and the block loop with its "
+                  "continues, weld_manifold for the repaired weld over Q; the model (incl. the final weld as a relabelling) is "
+                  "compared with the real canvas on every run and the property is evaluated by a verified closedness test on "
+                  "the implementation's own triangles",
+    "level_note": "Trusted: Coq kernel + vm_compute; tools/tab2coq (table translation); the hand-written cell loop and AddField "
+                  "loop of the model tied by differential correspondence only; all floating point (field evaluation, "
+                  "interpolation, weld rounding, enclosed volume of the real output) is Go-side; iso_distance uses Coq's "
+                  "classical real numbers (3 stdlib axioms shown by Print Assumptions), every other theorem is closed under the "
+                  "global context",
     "technique": "Coq proof (finite table lemmas by vm_compute + unbounded lifting over sign grids) + vm_compute "
                  "correspondence check against the real MarchingCanvas",
     "design_ref": "DESIGN.md §4 C09",
@@ -67,7 +76,17 @@ CFG = {
             "every signed-distance constructor / combinator of modeling/marching (Sphere, Box, Line, MultiSegmentLine, "
             "VarryingThicknessLine, Subtract, MirrorAxis, Field.Translate, CombineFields) at strength 0.5, 1, 2, 10, thin (about "
             "one cell) and thick (3-4 cells), plus capsules with coinciding end points; every case: no NaN/Inf in any output "
-            "attribute. Distinct by input; non-trivial = at least one output triangle",
+            "attribute; `touching`: fields whose samples equal the cutoff on whole planes with below-cutoff samples on both "
+            "sides (unit boxes with integer world coordinates sharing a face / a block on a slab / a partial face / the "
+            "shared plane on a storage-block boundary at 4, 5, 8, 10 cubes per unit; lattices with a (half) plane of samples "
+            "equal to the cutoff between two slabs, cutoff 0 and -0.5); `pow2-extent`: thin boxes whose end faces are exactly "
+            "2^k/10^4 cells apart (k = 16..22, 2^21 = 209.7152 cells always), from negative to positive coordinates, "
+            "crossings on whole weld buckets; block streams alternate AddField / AddFieldParallel; 1/4 of the random shapes "
+            "are marched three times (lower cutoff, same cutoff, judged call); single-field cases (constructors, CombineFields "
+            "unions, lattices, random shapes) are also marched through Field.March and Field.Voxelize and compared with the "
+            "canvas where the world-unit weld of Field.March cannot interfere; `attribute` (once the findings are listed): "
+            "two-attribute fields marched with MarchOnAttribute(Parallel) on a non-position attribute, alone and through "
+            "CombineFields / MirrorAxis / Subtract / Translate. Distinct by input; non-trivial = at least one output triangle",
     "trusted": ["sign grid = implementation's own field functions re-evaluated by the harness at the positions and in the "
                 "accumulation order of addFloat1Range (canvas storage is unexported)",
                 "weld buckets (modeling.Vector3ToInt(position, 3)) of output vertices and of the crossing points are computed "
@@ -77,9 +96,14 @@ CFG = {
                 "samples of the implementation's field functions equal it (1e-9), every output vertex of a union or single "
                 "member has |reference - cutoff| <= strength * one cell, enclosed volume lies between the numbers of cells with "
                 "8 and with >= 1 below-cutoff corners of the reference sign grid",
+                "Field.March / Field.Voxelize (second marching path) judged against the canvas result: same triangle and vertex "
+                "counts, closed, positive volume, vertices within 1.5e-3 cells, interpolated field value = cutoff; only where "
+                "no sample is within 1e-7 of the cutoff and no two crossing points share a 1e-3 world-unit bucket",
                 "harness-side float oracles: enclosed volume > 0, every output vertex equals (1e-9) the crossing point of a "
                 "grid edge with a sign change at parameter in [0,1], per-triangle orientation against the sign change"],
-    "modelled": ["one cell of marchFloat1BlockPosition (case index, table row, cube edge -> grid edge) with tables generated "
+    "modelled": ["AddField / addFloat1Range as folds over the blocks and the clipped lattice ranges (March/Store.v), "
+                 "fieldBounds, chunkSectionsInRange, the three `continue`s of the block loop (March/Canvas.v)",
+                 "one cell of marchFloat1BlockPosition (case index, table row, cube edge -> grid edge) with tables generated "
                  "from the Go source; the loop over blocks/cells is modelled as the list of cells of a box",
                  "WeldByFloat3Attribute modelled as relabelling by bucket + dropping collapsed triangles; LookupOrAdd "
                  "(1e-4 cell dedupe) is covered by the same relabelling except when two crossings closer than 2e-4 cells fall "
@@ -104,6 +128,15 @@ def main(argv):
     # Sphere(strength < 1) declares a domain smaller than the sphere: generated once the finding is listed
     if listed("march:constructor-domain-too-small"):
         extra += ["small-domains"]
+    # MarchOnAttribute(attribute != position) panics (fixes/C09-march-on-attribute-scale) and the combinators mix up the
+    # Float1 attributes of multi-attribute fields (fixes/C09-multi-attribute-closures): same gating
+    if listed("march:march-on-attribute-non-position"):
+        extra += ["attr"]
+        if listed("march:multi-attribute-closures"):
+            extra += ["attr-combinators"]
+    # AddFieldParallel2 samples the field with x and z exchanged (fixes/C09-addfieldparallel2-axes)
+    if listed("march:addfieldparallel2-axes-swapped"):
+        extra += ["addpar2"]
     if extra:
         CFG["extra_args"] = extra
     return vlib.standard_check(CFG, argv)
